@@ -478,6 +478,22 @@ def run_neighbors(part, h, w):
                             part.violation("four_neighbors:wrong", case, {"got": got, "expected": want, "type": type(r).__name__})
                         else:
                             part.add("nontrivial", ("nb", kind, h, w, y, x, form))
+                    # a caller may do anything with a result: later calls (on this or another array of the same shape) must not see it
+                    part.count("evaluations")
+                    try:
+                        r1 = a.four_neighbor_indices(y, x)
+                        r1.append((77, 77))
+                        if r1:
+                            r1[0] = (99, 99)
+                        r2 = a.four_neighbors(y, x)
+                        r2.data.append(None)
+                        other = (Solver().bool_array((h, w)) if kind == "bool" else Solver().int_array((h, w), 0, 1))
+                        again = [sorted(a.four_neighbor_indices(y, x)), sorted(a.four_neighbor_indices((y, x))), sorted(other.four_neighbor_indices(y, x))]
+                        again_el = sorted(getattr(v, "id", -1) for v in a.four_neighbors((y, x)).data)
+                        if any(g != exp for g in again) or again_el != sorted(a.data[yy * w + xx].id for yy, xx in exp):
+                            part.violation("four_neighbors:result-mutation-leaks-into-later-calls", case, {"later": again[0], "expected": exp})
+                    except Exception as e:
+                        part.violation("four_neighbors:raises-after-mutation-" + type(e).__name__, case, {"exception": repr(e)[:200]})
 
 
 def run_scale(part, shape):
@@ -632,7 +648,7 @@ def main(tier, seed, only=None):
             if h * w <= 12:
                 shards.append(("conv2d", h, w))
             shards.append(("neighbors", h, w))
-    for sh in ([(257,), (17, 17), (2, 40), (40, 2)] if tier == "quick" else [(257,), (300,), (17, 17), (2, 40), (40, 2), (33, 33), (1, 300), (300, 1)]):
+    for sh in ([(257,), (17, 17), (2, 40), (40, 2), (4100,)] if tier == "quick" else [(257,), (300,), (17, 17), (2, 40), (40, 2), (33, 33), (1, 300), (300, 1), (4097,), (4100,), (70, 70), (8200,)]):
         shards.append(("scale", sh))
     if only:
         shards = [s for s in shards if s[0] == only]
@@ -649,7 +665,7 @@ def main(tier, seed, only=None):
         "then, cond; array and scalar forms).  Helpers count_true/fold_or/fold_and/alldifferent over all leaf tuples of length <= %d "
         "from 5 leaves x ~20 nestings (varargs, list, tuple, generator, nested, 1-D/2-D arrays mixed with literals).  conv2d on all "
         "shapes <= %dx%d x windows 1..3 x 1..3 x and/or under all 2^(hw) assignments; four_neighbors / four_neighbor_indices at every "
-        "coordinate in both call forms.  Scale family (not exhaustive): arrays of 257 cells, 17x17, 2x40, 40x2 (thorough 33x33, 1x300) over distinct "
+        "coordinate in both call forms.  Scale family (not exhaustive): arrays of 257 and 4100 cells, 17x17, 2x40, 40x2 (thorough 33x33, 1x300, 70x70, 8200) over distinct "
         "variables, every operator form and aggregate checked on every element under four assignments.  Non-trivial = distinct (form, case) whose result was fully evaluated." % (3 if tier == "quick" else 4, top, top),
     )
     run.assumptions = [
